@@ -124,7 +124,8 @@ def add_malformed(rng, steps, tdir, kind, tag, path_value=None):
     steps.append(['d', tdir, 0o700])
     steps.append(['d', tdir + '/files', 0o700])
     steps.append(['d', tdir + '/info', 0o700])
-    nm = 'mal_%s_%s' % (kind, tag)
+    # the file name of a malformed entry is as free as any other (it shows up in diagnostics): '%', blanks, braces
+    nm = 'mal_%s_%s' % (kind, tag) + rng.choice(['', '', '', '%20x', ' 100%', '%s', '{0}', '%(name)s'])
     ip = tdir + '/info/' + nm + '.trashinfo'
     fp = tdir + '/files/' + nm
     if kind == 'nonsuffix':
